@@ -9,11 +9,13 @@ ALL = ["u8", "u16", "u32", "u64", "u128", "usize", "Ipv4Net", "Ipv6Net", "Ipv4Ne
 # representative subset for the heavier observers in the quick tier: every width, every crate,
 # one masked-only type
 REP7 = ["u8", "u32", "u128", "Ipv4Net", "Ipv6Net", "Ipv4Cidr", "Ipv6Inet"]
+MID4 = ["u64", "u128", "usize", "Ipv6Net"]
 
 # measured on the unchanged tree (equal to the closed forms of DESIGN.md section 1)
 EXPECTED_SHAPES = {
     ("U2", "hi", "full"): 1058, ("U2", "hi", "structural"): 1058, ("U2", "lo", "full"): 2206, ("U2", "lo", "structural"): 2206,
     ("U2", "hi", "canonical"): 128, ("U2", "lo", "canonical"): 256, ("U3", "hi", "canonical"): 32768,
+    ("U2", "mid", "full"): 2206, ("U2", "mid", "structural"): 2206, ("fork4", "hi", "structural"): 8010, ("comb6", "hi", "structural"): 336138,
     ("U3", "hi", "structural"): 2433218, ("U3", "hi", "full"): 2433218, ("comb5", "hi", "structural"): 48018, ("comb5", "hi", "full"): 48018,
 }
 
@@ -47,6 +49,8 @@ def grid(kinds, types, universes, embeds, alpha, observers_map, observers_set=No
 
 def plan_c01(tier, seed):
     runs = grid(["map", "set"], ALL, ["U2"], ["hi", "lo"], "full", ["exact"], ["lookups"])
+    runs += grid(["map", "set"], MID4, ["U2"], ["mid"], "full", ["exact"], ["lookups"])
+    runs += grid(["map", "set"], ["u8"], ["fork4"], ["hi"], "structural", ["exact"], ["lookups"], retain_all=False, threads=4)
     if tier == "thorough":
         runs += grid(["map"], ["u8", "u32"], ["U3"], ["hi"], "structural", ["exact"], threads=8, retain_all=False)
         runs += grid(["map", "set"], ALL, ["comb5"], ["hi"], "structural", ["exact"], ["lookups"], retain_all=False)
@@ -59,6 +63,10 @@ def e1_plan(obs_map, obs_set, alpha="structural", quick_types=ALL, canonical_obs
     def f(tier, seed):
         types = ALL if tier == "thorough" else quick_types
         runs = grid(list(kinds), types, ["U2"], ["hi", "lo"], alpha, obs_map, obs_set, deep=(tier == "thorough"))
+        # keys straddling the middle of the address (32/64-bit boundary of 64/128-bit representations)
+        runs += grid(["map"], [t for t in MID4 if t in types], ["U2"], ["mid"], alpha, obs_map, obs_set)
+        # a depth-4 fork below a chain (grandparent collapse with non-root grandparents, depth-4 sides)
+        runs += grid(["map"], ["u8"], ["fork4"], ["hi"], "structural", obs_map, obs_set, retain_all=False, threads=4)
         if canonical_obs is not None:
             runs += grid(["map"], types, ["U2"], ["hi", "lo"], "canonical", canonical_obs)
         if tier == "thorough":
